@@ -18,11 +18,11 @@ ID = 'C36'
 LEVEL = 'exploration'
 RULE = ('A case is one fork history. sqlite: parent state at the fork in {disconnected, idle pooled connection, open session '
         'after a read, open session with a flushed uncommitted write, open session with an unflushed object, open session '
-        'after commit; grid only: another THREAD of the parent inside a write transaction} x order {child first, parent first} x child script (read, write+commit, db.get_connection, disconnect, '
-        'rollback, nested fork with its own script; length 1..5) x parent script after the fork (read, write, commit, '
-        'end_session, disconnect; length 0..4); a complete grid of 6x2x6x3 short scripts (quick tier: alternating halves by seed parity) plus hypothesis-drawn longer ones. '
-        'pool: op lists over connect/use/release/drop/disconnect/gc with forks nested to depth 2 on the generic Pool and on '
-        'OraPool (a grid of 2x4x4x2 short ones plus hypothesis-drawn ones). Non-trivial = at the fork point the forking process held a pooled/open connection AND a forked process '
+        'after commit, a @db_session generator suspended after a read; grid only: another THREAD of the parent inside a write transaction} x order {child first, parent first} x child script (read, write+commit, db.get_connection, disconnect, '
+        'rollback, read whose first connection attempt fails once (fault injected in the sqlite3 factory), generator resume/write, nested fork with its own script; length 1..5) x parent script after the fork (read, write, commit, '
+        'end_session, disconnect; length 0..4); a complete grid of 6x2x7x3 short scripts + 20 generator histories (quick tier: alternating halves by seed parity) plus hypothesis-drawn longer ones. '
+        'pool: op lists over connect/use/release/drop/disconnect/gc/fail_next (the next driver-level connect of the process raises once) with forks nested to depth 2 on the generic Pool and on '
+        'OraPool (a grid of 2x4x6x2 short ones plus hypothesis-drawn ones). Non-trivial = at the fork point the forking process held a pooled/open connection AND a forked process '
         'issued at least one statement (sqlite) / called connect() (pool). Distinct by the whole case.')
 ASSUMPTIONS = ['real os.fork() on Linux; sqlite3 3.40 file database in rollback-journal mode, busy timeout 0.15 s',
                'a connection object belongs to the process whose pid created it (recorded by the sqlite3.Connection subclass / '
@@ -43,7 +43,8 @@ SHARDS = {'quick': 4, 'thorough': 8}
 MIN_EVALS = {'quick': 120, 'thorough': 1500}
 CLASS_FLOORS = {'sqlite': 0.3, 'pool:generic': 0.08, 'pool:oracle': 0.08, 'nontrivial': 0.25}
 
-CHILD_FIRST_OPS = [['read'], ['write'], ['getconn'], ['disconnect', 'read'], ['rollback', 'read', 'write'], [['fork', ['read', 'write']]]]
+CHILD_FIRST_OPS = [['read'], ['write'], ['getconn'], ['disconnect', 'read'], ['rollback', 'read', 'write'], [['fork', ['read', 'write']]],
+                   ['fail_connect', 'read', 'write', 'disconnect']]     # first connection attempt of the child fails once, then retry
 PARENT_SCRIPTS = [[], ['commit', 'read'], ['end_session', 'write']]
 
 
@@ -55,6 +56,12 @@ def grid_cases():
                 for after in PARENT_SCRIPTS:
                     out.append(normalise({'kind': 'sqlite', 'parent_state': state, 'order': order,
                                           'child': child, 'parent_after': after}))
+    # a @db_session generator of the parent is suspended at the fork point and resumed on both sides
+    for order in ('child_first', 'parent_first'):
+        for child in (['gen_next'], ['gen_write', 'read'], ['read', 'gen_write', 'gen_next'], [['fork', ['gen_write']]],
+                      ['fail_connect', 'gen_write']):
+            for after in ([], ['gen_write', 'read']):
+                out.append({'kind': 'sqlite', 'parent_state': H.GEN_STATE, 'order': order, 'child': child, 'parent_after': after})
     # another thread of the parent holds the open write transaction (and pony's SQLite transaction lock)
     for child, after in ((['read'], []), (['read'], ['read']), (['write'], []), (['getconn'], []),
                          ([['fork', ['read', 'write']]], [])):
@@ -65,7 +72,9 @@ def grid_cases():
 
 POOL_PREFIX = [[], ['connect'], ['connect', 'use', 'release'], ['connect', 'drop']]
 POOL_CHILD = [['connect', 'use', 'release'], ['disconnect', 'gc', 'connect'], ['gc', 'connect', 'release', ['fork', ['connect', 'release', 'gc']]],
-              ['connect', 'drop', 'gc', 'connect']]
+              ['connect', 'drop', 'gc', 'connect'],
+              ['fail_next', 'connect', 'connect', 'use', 'release', 'disconnect'],       # the first connect of the child fails once
+              ['fail_next', 'connect', 'disconnect', 'gc', ['fork', ['fail_next', 'connect', 'connect', 'release']]]]
 POOL_SUFFIX = [[], ['connect', 'use', 'release']]
 
 
@@ -134,9 +143,15 @@ def evaluate(ctx, case):
             classes.append('nested_fork')
         if stats['foreign_noop_calls']:
             classes.append('foreign_noop_call')
+        if stats.get('faults'):
+            classes.append('connect_fault')
+        if case['parent_state'] == H.GEN_STATE:
+            classes.append('suspended_generator')
     else:
         nt = _pool_nontrivial(case['ops'])
         classes = ['pool:' + case['pool']]
+        if stats.get('faults'):
+            classes.append('connect_fault')
     if nt:
         classes.append('nontrivial')
     ctx.case(key=case, nontrivial=nt, classes=classes,
@@ -160,7 +175,7 @@ def run(ctx):
 
     # 2. hypothesis-drawn histories (the cheap pool histories first, so that a wall-clock stop starves neither part)
     from hypothesis import strategies as st
-    pleaf = st.sampled_from(['connect', 'use', 'release', 'drop', 'disconnect', 'gc', 'connect', 'release'])
+    pleaf = st.sampled_from(['connect', 'use', 'release', 'drop', 'disconnect', 'gc', 'connect', 'release', 'fail_next', 'connect'])
     g_script = st.lists(pleaf, min_size=1, max_size=4)
     c_script = st.lists(st.one_of(pleaf, pleaf, pleaf, st.tuples(st.just('fork'), g_script).map(list)), min_size=1, max_size=6)
     p_script = st.lists(st.one_of(pleaf, pleaf, st.tuples(st.just('fork'), c_script).map(list)), min_size=1, max_size=7)
@@ -168,24 +183,34 @@ def run(ctx):
 
     def t_pool(case):
         evaluate(ctx, case)
-    ctx.run_test(t_pool, dict(case=pool_case), max_examples=ctx.scale(20, 160), name='pool_histories')
+    ctx.run_test(t_pool, dict(case=pool_case), max_examples=ctx.scale(12, 160), name='pool_histories')
     if ctx.violation:
         return
 
-    leaf = st.sampled_from(['read', 'write', 'getconn', 'disconnect'])
+    leaf = st.sampled_from(['read', 'write', 'getconn', 'disconnect', 'fail_connect', 'read', 'write'])
     sub_script = st.lists(leaf, min_size=1, max_size=3)
     child_op = st.one_of(leaf, leaf, st.just('rollback'), st.tuples(st.just('fork'), sub_script).map(list))
-    sqlite_case = st.fixed_dictionaries({
+    plain_case = st.fixed_dictionaries({
         'kind': st.just('sqlite'),
         'parent_state': st.sampled_from(H.PARENT_STATES),
         'order': st.sampled_from(['child_first', 'parent_first']),
         'child': st.lists(child_op, min_size=1, max_size=5),
         'parent_after': st.lists(st.sampled_from(['read', 'write', 'commit', 'end_session', 'disconnect']), max_size=4),
     }).map(normalise)
+    gleaf = st.sampled_from(['gen_next', 'gen_write', 'gen_write', 'read', 'write', 'fail_connect', 'disconnect'])
+    gchild_op = st.one_of(gleaf, gleaf, gleaf, st.tuples(st.just('fork'), st.lists(gleaf, min_size=1, max_size=3)).map(list))
+    gen_case = st.fixed_dictionaries({
+        'kind': st.just('sqlite'),
+        'parent_state': st.just(H.GEN_STATE),
+        'order': st.sampled_from(['child_first', 'parent_first']),
+        'child': st.lists(gchild_op, min_size=1, max_size=5),
+        'parent_after': st.lists(st.sampled_from(['gen_next', 'gen_write', 'read', 'write']), max_size=4),
+    })
+    sqlite_case = st.one_of(plain_case, plain_case, plain_case, plain_case, gen_case)
 
     def t_sqlite(case):
         evaluate(ctx, case)
-    ctx.run_test(t_sqlite, dict(case=sqlite_case), max_examples=ctx.scale(15, 180), name='sqlite_histories')
+    ctx.run_test(t_sqlite, dict(case=sqlite_case), max_examples=ctx.scale(12, 180), name='sqlite_histories')
 
 
 def replay(case):
@@ -250,7 +275,16 @@ def _fork_while_other_thread_holds_sqlite_lock(case, message):
             and message.startswith('[deadlock]'))
 
 
-EXCLUSIONS = {'fork_while_other_thread_holds_sqlite_lock': _fork_while_other_thread_holds_sqlite_lock,
+def _fork_with_suspended_generator_session(case, message):
+    """a @db_session generator suspended at the fork: its SessionCache (and connection) sits in the wrapper's
+    db2cache_copy, not in local.db2cache, so the at-fork hook does not detach it; resumed in the child it runs on the
+    parent's connection.  The judge tags exactly the events on the connection the generator session held at the fork."""
+    return (case.get('kind') == 'sqlite' and case.get('parent_state') == 'gen_suspended'
+            and message.startswith('[suspended-generator]'))
+
+
+EXCLUSIONS = {'fork_with_suspended_generator_session': _fork_with_suspended_generator_session,
+              'fork_while_other_thread_holds_sqlite_lock': _fork_while_other_thread_holds_sqlite_lock,
               'fork_inside_open_session': _fork_inside_open_session,
               'child_disconnect_closes_parent_connection': _child_disconnect_closes_parent_connection}
 
